@@ -1,7 +1,7 @@
 (** Extraction of the executable models and checkers to OCaml.
     Only ExtrOcamlBasic and ExtrOcamlString are used; numbers stay Coq datatypes. *)
 From Coq Require Import Extraction ExtrOcamlBasic ExtrOcamlString.
-From Parol Require Import Grammar.Cfg Grammar.Member Runtime.Levenshtein Runtime.LevFaithful Runtime.DfaEval Transform.LrAugment Analysis.WellFormed Analysis.FirstFollow Analysis.FFCheck.
+From Parol Require Import Grammar.Cfg Grammar.Member Runtime.Levenshtein Runtime.LevFaithful Runtime.DfaEval Transform.LrAugment Analysis.WellFormed Analysis.FirstFollow Analysis.FFCheck Runtime.LRParser Tables.LRValidate.
 Extraction Language OCaml.
 Set Extraction Optimize.
 Separate Extraction Levenshtein.lev_check Levenshtein.dist LevFaithful.lev
@@ -12,4 +12,5 @@ Separate Extraction Levenshtein.lev_check Levenshtein.dist LevFaithful.lev
   WellFormed.leftrec_check WellFormed.decision_check WellFormed.nullable_panics WellFormed.check_decision
   WellFormed.nullable_nts WellFormed.unproductive_nts WellFormed.unreachable_nts WellFormed.left_recursive_nts
   FFCheck.first_check FFCheck.first_prods_check FFCheck.follow_check FFCheck.decide_check
-  FirstFollow.first_ref FirstFollow.follow_ref FirstFollow.decide_ref FirstFollow.lookup FirstFollow.first_prods.
+  FirstFollow.first_ref FirstFollow.follow_ref FirstFollow.decide_ref FirstFollow.lookup FirstFollow.first_prods
+  LRParser.lr_run LRValidate.lr_validate LRValidate.infer_annotation LRValidate.lr_safe_check.
